@@ -525,11 +525,29 @@ def token(ctx: Ctx, rep: Report) -> None:
     mb = ctx.fn(RWM + '.get_new_results')
     g2 = ctx.cfg(mb)
     rep.seen(mb.qualname)
-    rd = q.assigns('out', 'self.fresh_results')
-    rs = q.assigns('self.fresh_results', '[]')
+    # the batch handed out is read (by reference or copied) before the
+    # attribute is re-pointed at a fresh empty list, on every path, and the
+    # returned value derives from that read
+    def rs(n) -> bool:
+        return isinstance(n.stmt, ast.Assign) and norm(
+            n.stmt.targets[0]) == 'self.fresh_results' and norm(
+            n.stmt.value) in ('[]', 'list()')
+
+    def rd(n) -> bool:
+        return isinstance(n.stmt, (ast.Assign, ast.Return)) and not rs(n) \
+            and n.stmt.value is not None and any(
+                norm(x) == 'self.fresh_results'
+                for x in ast.walk(n.stmt.value))
+    reads = g2.where(rd)
+    after = g2.reach(list(g2.ids(rs)), include_starts=False)
+    rets = [n for n in g2.nodes if isinstance(n.stmt, ast.Return)]
+    derived = bool(rets) and all(
+        n.stmt.value is not None and 'self.fresh_results' in ctx.rd(
+            mb).closure(n, n.stmt.value)[0] for n in rets)
     rep.count()
     rep.check(
-        g2.must(rd) and not g2.response(rd, rs), T,
+        bool(reads) and g2.must(rs) and derived
+        and not any(n.id in after for n in reads), T,
         'WorkerMailbox.get_new_results', mb.path, mb.lineno,
         'fresh results are reset once read (batches are disjoint)',
         'fresh_results is not reset after being read: next() would return '
